@@ -17,7 +17,7 @@ for k in $(seq 0 $((N-1))); do
         if git -C /tmp/rt/w$k apply /verif/refactors/$id/patch.diff 2>/dev/null; then
           out=""
           for c in 01 02 03 04 05 06 07 08 09 10 11 12 13 14 15 16 17 18 19 20; do
-            r=$(bin/simdvet check C$c --repo /tmp/rt/w$k --verif /tmp/rt/v$k 2>&1 | grep -A1 VIOLATION | grep 'rule=' | sed 's/^ *rule=\([^ ]*\) construct=\([^ ]*\).*/\1:\2/' | sort -u | tr '\n' ' ')
+            r=$(${SIMDVET:-bin/simdvet} check C$c --repo /tmp/rt/w$k --verif /tmp/rt/v$k 2>&1 | grep -A1 VIOLATION | grep 'rule=' | sed 's/^ *rule=\([^ ]*\) construct=\([^ ]*\).*/\1:\2/' | sort -u | tr '\n' ' ')
             [ -n "$r" ] && out="$out C$c[$r]"
           done
           git -C /tmp/rt/w$k checkout -q -- . ; git -C /tmp/rt/w$k clean -fdq
